@@ -5,9 +5,9 @@ RecoveryManager.Resurrect and wallet.go locateBirthdayBlock).  Proofs in Lemmas/
 
 What is proved for ALL inputs: `C16_complete` for the whole batch loop (`recover`: expandAll → filterBlocks →
 applyFound, every window, every chain satisfying the look-ahead hypothesis, every set of invalid children, every batch
-size, every set of resume points), `C16_complete_resumed_partial` (a later recovery over an extended chain, possibly
-with another window; partial: no leased outputs / unmined transactions at the restart — the code misses spends of such
-outputs, `C16_resumed_misses_spend_of_hidden_output`), the branch-horizon clause (every window, every set of invalid children, every reachable branch
+size, every set of resume points), `C16_complete_resumed` (a later recovery over an extended chain, possibly with
+another window, recovered outputs possibly leased or spent by unmined transactions at the restart; the code before
+50a099b missed spends of such outputs, `C16_resumed_misses_spend_of_hidden_output`), the branch-horizon clause (every window, every set of invalid children, every reachable branch
 state, also after Resurrect) and the birthday clauses (every timestamp sequence, birthday, delta).
 Proofs: Lemmas/RecoveryLoop.lean (filter, horizon, extendFound, addRelevantTx) and Lemmas/RecoveryComplete.lean
 (loop invariant `PInv`/`MInv`, blocks, batches, Resurrect).
@@ -17,16 +17,15 @@ against the next index after the EARLIER blocks (`nextAfter`), exactly as the pr
 reading — the real loop does not re-filter a block after a find in the same block (`batch = batch[BatchIndex+1:]`) —
 is shown by `C16_same_block_jump_is_missed`.
 
-INVALID CHILDREN (`invalid`, `inv` below): the model's `MarkInvalidChild` path is what the code INTENDS, not what it
-does for a real invalid child.  `expandScopeHorizons` (wallet/wallet.go:968, :998) and `Resurrect`
-(wallet/recovery.go:88/90, 108/110) test `err == hdkeychain.ErrInvalidChild`, but `ScopedKeyManager.DeriveFromKeyPath`
-(waddrmgr/scoped_manager.go:728) gets the error from `deriveKey` (scoped_manager.go:404-412), which wraps it:
-`managerError(ErrKeyChain, str, err)`.  The comparison is therefore never true; a real invalid child (probability
-2^-127 per index, cannot be provoked with real keys) falls into `case err != nil: return err` and ABORTS recovery —
-`syncWithChain` fails and is retried for ever.  So for a non-empty `invalid` the theorems describe the repaired code
-(repo-patches/fix-C16-invalid-child-error-match.diff: `errors.Is`, `ManagerError` has `Unwrap`); for the code as it is
-they hold with `invalid = fun _ => []`, which is every wallet anybody will ever see.  `BranchRecoveryState` itself
-(ExtendHorizon / NumInvalidInHorizon / MarkInvalidChild) is exercised with invalid children through its exported API.  Locked/unlocked: the model has no lock state because the real recovery
+INVALID CHILDREN (`invalid`, `inv` below): until /repo d8ace74 the `MarkInvalidChild` path was dead code for a real invalid
+child: `expandScopeHorizons` (wallet/wallet.go) and `Resurrect` (wallet/recovery.go) tested
+`err == hdkeychain.ErrInvalidChild`, but `ScopedKeyManager.DeriveFromKeyPath` gets the error from `deriveKey`
+(waddrmgr/scoped_manager.go), which wraps it in `managerError(ErrKeyChain, str, err)`; a real invalid child (probability
+2^-127 per index, cannot be provoked with real keys) would have aborted recovery for ever.  Since d8ace74 the callers use
+`errors.Is` (`ManagerError` has `Unwrap`) and the code does what the model says.  `BranchRecoveryState` itself
+(ExtendHorizon / NumInvalidInHorizon / MarkInvalidChild) is exercised with invalid children through its exported API; in
+the loop they are covered by the theorems only.
+Locked/unlocked: the model has no lock state because the real recovery
 behaves identically in both (compared by the engine), so the theorem covers both.
 -/
 import BtcwVerif.Lemmas.RecoveryComplete
@@ -77,14 +76,16 @@ def Complete (scopes : List Nat) (c : Chain) (st : State) : Prop :=
   -- every transaction paying to or spending from them is recorded, in its block
   (∀ h blk, (h, blk) ∈ c → ∀ tx ∈ blk,
       ((∃ o ∈ tx.outs, isW scopes o = true) ∨ (∃ op ∈ tx.ins, op ∈ wops scopes (allTxs c))) → (tx.id, h) ∈ st.txs) ∧
-  -- the credits are exactly the wallet outputs of the chain, spent iff the chain spends them; correct balance
+  -- the credits are exactly the wallet outputs of the chain, spent iff the chain spends them
   st.credits = specCredits scopes (allTxs c) ∧
-  balance st = ledgerBalance scopes (allTxs c)
+  -- correct balance (`CalculateBalance` deliberately leaves out leased outputs and outputs spent by an unmined
+  -- transaction — `hidden`; when there are none it is the ledger balance)
+  ((∀ op, hidden st op = false) → balance st = ledgerBalance scopes (allTxs c))
 
 theorem complete_of_pinv {scopes : List Nat} {c : Chain} {st : State} (hp : PInv scopes c c st) :
     Complete scopes c st := by
   refine ⟨fun k hk hs => ⟨(hp.paid k hk hs).2, (hp.paid k hk hs).1⟩, ?_, hp.credits,
-    balance_spec scopes _ st hp.credits hp.no_lease hp.no_unmined⟩
+    balance_spec scopes _ st hp.credits⟩
   intro h blk hmem tx htx ht
   apply hp.txs_rec h blk hmem tx htx
   simp only [touches, Bool.or_eq_true, List.any_eq_true, List.contains_iff_mem]
@@ -97,22 +98,25 @@ theorem complete_of_pinv {scopes : List Nat} {c : Chain} {st : State} (hp : PInv
     n-th batch and resumed through `Resurrect`): recovery from seed finds every used address, records every
     transaction paying to or spending from them, ends with exactly the right credits and balance, and leaves each
     branch's next index above the highest used one.
-    (`recover` starts from the empty database of a wallet just created from its seed and nothing but recovery acts on
-    it between the resume points: no output is leased, no unmined transaction is stored — see
-    `C16_complete_resumed_partial` for what happens otherwise.) -/
+    (`recover` starts from the empty database of a wallet just created from its seed; recovery itself leases nothing
+    and stores no unmined transaction, `quiet_recover`, so the balance clause is unconditional here.) -/
 theorem C16_complete (invalid : BranchId → List Nat) (W batchSize : Nat) (scopes : List Nat) (c : Chain)
     (cuts : Nat → Bool) (hwf : ChainWF scopes invalid c) (hla : LookAhead W scopes c) :
-    Complete scopes c (recover invalid W batchSize scopes c cuts) :=
-  complete_of_pinv (recover_inv hwf hla batchSize cuts).1
+    Complete scopes c (recover invalid W batchSize scopes c cuts) ∧
+    balance (recover invalid W batchSize scopes c cuts) = ledgerBalance scopes (allTxs c) :=
+  ⟨complete_of_pinv (recover_inv hwf hla batchSize cuts).1,
+   (complete_of_pinv (recover_inv hwf hla batchSize cuts).1).2.2.2 (quiet_recover invalid W batchSize scopes c cuts).hidden⟩
 
 /-- A later recovery (wallet restarted when the chain has grown by `rest`, possibly with another window `W'`),
     starting from what ANY complete earlier run left in the database (`PInv`, e.g. `C16_recover_leaves_pinv`): the
     conclusion holds for the whole chain, provided the NEW blocks satisfy the look-ahead hypothesis with `W'`
     relative to everything before them (`LookAheadFrom … p.length`; nothing is asked of the old blocks again).
-    PARTIAL: `PInv` includes `no_lease` / `no_unmined` — at the time of the restart no recovered output is leased and
-    the store holds no unmined transaction.  Without that the real code (and the model) misses spends:
-    `C16_resumed_misses_spend_of_hidden_output` (defect, wallet.go:732 passes `UnspentOutputs` to `Resurrect`). -/
-theorem C16_complete_resumed_partial (invalid : BranchId → List Nat) (W' batchSize : Nat) (scopes : List Nat) (p rest : Chain)
+    Recovered outputs may be leased (`LeaseOutput`) and the store may hold unmined transactions spending them at the
+    restart — `st0.leased`, `st0.unmined` are arbitrary: since 50a099b `Resurrect` is fed `OutputsToWatch` and watches
+    such outputs too.  (Before that fix it did not, and spends were missed: `C16_resumed_misses_spend_of_hidden_output`.)
+    The balance clause of `Complete` is conditional on nothing being hidden at the end, because `CalculateBalance`
+    itself leaves hidden outputs out. -/
+theorem C16_complete_resumed (invalid : BranchId → List Nat) (W' batchSize : Nat) (scopes : List Nat) (p rest : Chain)
     (cuts : Nat → Bool) (st0 : State) (hp : PInv scopes p p st0) (hwf : ChainWF scopes invalid (p ++ rest))
     (hla : LookAheadFrom W' scopes p.length (p ++ rest)) :
     Complete scopes (p ++ rest)
@@ -131,7 +135,8 @@ theorem C16_recover_leaves_pinv (invalid : BranchId → List Nat) (W batchSize :
 /-- The hypotheses are decidable: `checkWF` / `checkLA` (run by the driver on every generated chain) imply them. -/
 theorem C16_complete_checked (invalid : BranchId → List Nat) (W batchSize : Nat) (scopes : List Nat) (c : Chain)
     (cuts : Nat → Bool) (h1 : checkWF scopes invalid c = true) (h2 : checkLA W scopes c = true) :
-    Complete scopes c (recover invalid W batchSize scopes c cuts) :=
+    Complete scopes c (recover invalid W batchSize scopes c cuts) ∧
+    balance (recover invalid W batchSize scopes c cuts) = ledgerBalance scopes (allTxs c) :=
   C16_complete invalid W batchSize scopes c cuts (checkWF_sound scopes invalid c h1) (checkLA_sound W scopes c h2)
 
 /-! Non-vacuity and tightness.  Window 2, scope 0.  Block 1: tx 1 pays external index 1 (a jump of W-1 = 1 over
@@ -146,13 +151,13 @@ example : ChainWF [0] exInvalid exChain := checkWF_sound _ _ _ (by decide)
 example : LookAhead 2 [0] exChain := checkLA_sound _ _ _ (by decide)
 example : ledgerBalance [0] (allTxs exChain) = 15 := by decide
 example : balance (recover exInvalid 2 1 [0] exChain (fun _ => true)) = 15 :=
-  (C16_complete_checked exInvalid 2 1 [0] exChain (fun _ => true) (by decide) (by decide)).2.2.2.trans (by decide)
+  (C16_complete_checked exInvalid 2 1 [0] exChain (fun _ => true) (by decide) (by decide)).2.trans (by decide)
 
 /-- …and the restart form: block 1 recovered with window 2, the wallet restarted when block 2 exists. -/
 example : Complete [0] exChain
     (recoverChain exInvalid 1 2 (resurrect exInvalid
       { recover exInvalid 2 1 [0] (exChain.take 1) (fun _ => false) with window := 2 }) (exChain.drop 1) (fun _ => false) 0) :=
-  C16_complete_resumed_partial exInvalid 2 1 [0] (exChain.take 1) (exChain.drop 1) (fun _ => false) _
+  C16_complete_resumed exInvalid 2 1 [0] (exChain.take 1) (exChain.drop 1) (fun _ => false) _
     (C16_recover_leaves_pinv exInvalid 2 1 [0] (exChain.take 1) (fun _ => false)
       (checkWF_sound _ _ _ (by decide)) (checkLA_sound _ _ _ (by decide)))
     (checkWF_sound _ _ _ (by decide)) (checkLAFrom_sound _ _ _ _ (by decide))
@@ -183,33 +188,38 @@ theorem C16_same_block_jump_is_missed :
   have := h [] 1 _ [] rfl ⟨0, false, 2⟩ (by decide) (by decide)
   revert this; decide
 
-/-- DEFECT (real code, reproduced through the engine; oracle key `resume-unwatched-output`): `Wallet.recovery` rebuilds
-    the watched outpoints of a resumed recovery from `TxStore.UnspentOutputs` (wallet.go:732), which omits outputs
-    that are leased (`LeaseOutput`) and outputs spent by an unmined transaction — unlike the start-up rescan, which
-    uses `OutputsToWatch` for exactly that reason.  Block 1 pays wallet address 0 (50); recovery finds it.  Then
-    (i) the output is leased, or (ii) an unmined transaction 2 spending it reaches the wallet; the wallet stops, block 2
-    confirms transaction 2 (paying somebody else), the wallet restarts: the resumed recovery does not notice
-    transaction 2.  In (i) the output is unspent for the wallet once the lease ends (balance 50, truth 0); in (ii)
-    transaction 2 stays unmined forever.  All other hypotheses of `C16_complete_resumed_partial` hold; without the
-    lease / unmined transaction the spend is found.  Fix: repo-patches/fix-C16-resurrect-outputs-to-watch.diff. -/
+/-- FORMER DEFECT (real code before 50a099b, reproduced through the engine; oracle key `resume-unwatched-output`):
+    the pre-50a099b code — `Wallet.recovery` rebuilt the watched outpoints of a resumed recovery from
+    `TxStore.UnspentOutputs` (`resurrectOld`), which omits outputs that are leased (`LeaseOutput`) and outputs spent by
+    an unmined transaction — misses spends of such outputs.  Block 1 pays wallet address 0 (50); recovery finds it.
+    Then (i) the output is leased, or (ii) an unmined transaction 2 spending it reaches the wallet; the wallet stops,
+    block 2 confirms transaction 2 (paying somebody else), the wallet restarts: the old resumed recovery does not
+    notice transaction 2.  In (i) the output is unspent for the wallet once the lease ends (balance 50, truth 0); in
+    (ii) transaction 2 stays unmined for ever.  The fixed code (`resurrect`, `OutputsToWatch`) records transaction 2
+    in both cases — an instance of `C16_complete_resumed`. -/
 theorem C16_resumed_misses_spend_of_hidden_output :
     let p : Chain := [(1, [⟨1, [], [⟨some ⟨0, false, 0⟩, 50⟩]⟩])]
     let rest : Chain := [(2, [⟨2, [(1, 0)], [⟨none, 49⟩]⟩])]
     let noInv : BranchId → List Nat := fun _ => []
     let st0 := recover noInv 2 1 [0] p (fun _ => false)
+    let resumeOld := fun (st : State) => recoverChain noInv 1 2 (resurrectOld noInv st) rest (fun _ => false) 0
     let resume := fun (st : State) => recoverChain noInv 1 2 (resurrect noInv st) rest (fun _ => false) 0
+    let t2 : Tx := ⟨2, [(1, 0)], [⟨none, 49⟩]⟩
     checkWF [0] noInv (p ++ rest) = true ∧ checkLAFrom 2 [0] 1 (p ++ rest) = true ∧
     ledgerBalance [0] (allTxs (p ++ rest)) = 0 ∧
-    -- control: nothing hidden ⇒ the spend is found
-    ((2, 2) ∈ (resume st0).txs ∧ balance (resume st0) = 0) ∧
-    -- (i) leased output
-    (∃ st1, leaseOutput st0 (1, 0) = some st1 ∧ (2, 2) ∉ (resume st1).txs ∧
-      ∃ st3, releaseOutput (resume st1) (1, 0) = some st3 ∧ balance st3 = 50) ∧
-    -- (ii) spent by an unmined transaction
-    ((2, 2) ∉ (resume (addUnmined st0 ⟨2, [(1, 0)], [⟨none, 49⟩]⟩)).txs ∧
-      (resume (addUnmined st0 ⟨2, [(1, 0)], [⟨none, 49⟩]⟩)).unmined.any (fun t => t.id == 2) = true) := by
-  refine ⟨by decide, by decide, by decide, ⟨by decide, by decide⟩, ⟨_, rfl, by decide, _, rfl, by decide⟩,
-    by decide, by decide⟩
+    -- control: nothing hidden ⇒ the old code finds the spend, too
+    ((2, 2) ∈ (resumeOld st0).txs ∧ balance (resumeOld st0) = 0) ∧
+    -- (i) leased output: old code misses, fixed code finds
+    (∃ st1, leaseOutput st0 (1, 0) = some st1 ∧ (2, 2) ∉ (resumeOld st1).txs ∧
+      (∃ st3, releaseOutput (resumeOld st1) (1, 0) = some st3 ∧ balance st3 = 50) ∧
+      (2, 2) ∈ (resume st1).txs ∧ balance (resume st1) = 0) ∧
+    -- (ii) spent by an unmined transaction: old code misses, fixed code finds and the unmined record is gone
+    ((2, 2) ∉ (resumeOld (addUnmined st0 t2)).txs ∧
+      (resumeOld (addUnmined st0 t2)).unmined.any (fun t => t.id == 2) = true ∧
+      (2, 2) ∈ (resume (addUnmined st0 t2)).txs ∧ (resume (addUnmined st0 t2)).unmined = []) := by
+  refine ⟨by decide, by decide, by decide, ⟨by decide, by decide⟩,
+    ⟨_, rfl, by decide, ⟨_, rfl, by decide⟩, by decide, by decide⟩,
+    by decide, by decide, by decide, by decide⟩
 
 /-- The binary search always returns a block (no timestamp assumption). -/
 theorem C16_birthday_terminates (ts : Nat → Int) (b delta : Int) (best : Nat) :
